@@ -52,7 +52,12 @@ AbsFinish ==
    Python set; behaviours for replay return at most one message per finish *)
 OneAtFinish == (hist'[1] = "finish") => (Cardinality({i \in processing : takenBy[i] = hist'[2]}) <= 1)
 absvars == <<now, st, AbsLoc, AbsMeta, takenBy, orig, deliv, ret, AbsCons>>
-Refines == [][Abs!Next \/ AbsConsume \/ AbsFinish]_absvars
+AbsFlush == \E H \in SUBSET Ids : Abs!Flush(1, H)
+Refines == [][Abs!Next \/ AbsConsume \/ AbsFinish \/ AbsFlush]_absvars
+Yes == TRUE
+AbsFlushLocal == Abs!FlushLocal
+AbsFlushComplete == Abs!FlushComplete
+AbsGoneIsFinal == Abs!GoneIsFinal
 AbsConservation == Abs!Conservation
 AbsOneHolder == Abs!OneHolder
 AbsNeverEarly == Abs!NeverEarly
